@@ -46,10 +46,14 @@ pub struct Action {
     /// add a `Location:` header pointing back at the same URL (with a 3xx status: a redirect loop)
     #[serde(default)]
     pub redirect_self: bool,
+    /// after the last body byte that is sent (see `cut_after`) keep the connection open and silent for up to this many
+    /// milliseconds (or until the client hangs up), then close: a server that stalls mid-transfer
+    #[serde(default)]
+    pub stall_ms: u32,
 }
 impl Default for Action {
     fn default() -> Self {
-        Action { status: 206, body: Body::Range, cut_after: None, drop: false, pieces: vec![], chunked: false, pace_us: 0, declared_len: None, redirect_self: false }
+        Action { status: 206, body: Body::Range, cut_after: None, drop: false, pieces: vec![], chunked: false, pace_us: 0, declared_len: None, redirect_self: false, stall_ms: 0 }
     }
 }
 
@@ -250,6 +254,19 @@ fn handle(mut s: TcpStream, data: &Arc<Vec<u8>>, script: &Script, index: usize, 
     }
     let _ = s.flush();
     log.lock().unwrap()[slot].sent_body = sent;
+    if action.stall_ms > 0 {
+        let t0 = std::time::Instant::now();
+        let _ = s.set_read_timeout(Some(std::time::Duration::from_millis(50)));
+        let mut sink = [0u8; 64];
+        while t0.elapsed().as_millis() < action.stall_ms as u128 {
+            match s.read(&mut sink) {
+                Ok(0) => break, // the client gave up
+                Ok(_) => {}
+                Err(e) if matches!(e.kind(), std::io::ErrorKind::WouldBlock | std::io::ErrorKind::TimedOut) => {}
+                Err(_) => break,
+            }
+        }
+    }
     // FIN, then drain what the client may still send so that the close is not a RST
     let _ = s.shutdown(std::net::Shutdown::Write);
     let _ = s.set_read_timeout(Some(std::time::Duration::from_millis(200)));
